@@ -105,8 +105,8 @@ Lemma mmd_e_loop_noskip tr order : forall (l l' : list (@triple F)) st, map fst 
   mmd_e_loop Op l None tr order st = mmd_e_loop Op l' None tr order st.
 Proof.
   induction l as [|[[M m] i] l IH]; intros [|[[M' m'] i'] l'] st E; cbn [map fst] in E; try discriminate; [reflexivity|].
-  injection E as E1 E2 E3. subst. cbn [mmd_e_loop is_skip].
-  destruct (negb (m' <? order)); [reflexivity|].
+  injection E as E1 E2 E3. subst. cbn [mmd_e_loop is_skip]. cbv zeta.
+  destruct (negb (m' - s_dec st <? length (s_out st))); [reflexivity|].
   destruct (ndim M') as [|[|[|k]]]; try reflexivity; now apply IH.
 Qed.
 
@@ -142,7 +142,7 @@ Theorem multi_mode_dot_order (T : tensor F) (ops ops' : list (tensor F * nat)) (
 Proof.
   intros HP Hnd. pose proof (sorted_ops ops ops' HP Hnd) as E. split.
   - unfold multi_mode_dot. now apply mmd_loop_noskip.
-  - unfold multi_mode_dot_e. cbv zeta. now rewrite (mmd_e_loop_noskip tr (ndim T) _ _ _ E), (mmd_e_fits_noskip (shape T) tr _ _ E).
+  - unfold multi_mode_dot_e. cbv zeta. now rewrite (mmd_e_loop_noskip tr (ndim T) _ _ _ E).
 Qed.
 
 End P.
